@@ -1,7 +1,7 @@
 (* C02 — property theorems about the model of the job scheduler (FV.C02.Model).
    Statements only; proofs are in Inv, Steps*, Acc*, Reach, Order, Safe, Live3, Live. *)
 From Coq Require Import List NArith Bool.
-From FV.C02 Require Import Model Graph Inv Order Safe Reach NoPanic LiveCheck Live Search.
+From FV.C02 Require Import Model Graph Inv Order Safe Reach NoPanic LiveCheck Live Calm Search.
 Import ListNotations.
 
 (* 1. Task-graph safety in all schedules.  For every job graph G (static jobs, dynamically added
@@ -60,6 +60,36 @@ Theorem never_unable_to_proceed : forall G rk, wf_graphb G = true -> live_graph 
 Proof. intros G rk Hw Hl evs st. exact (progress_in_all_schedules G rk evs st (wf_graphb_sound G Hw) Hl). Qed.
 Print Assumptions never_unable_to_proceed.
 
+(* 6. No scheduler panic.  For every job graph with unique ids accepted by the decidable condition
+      calm_graph (every hard access rewrite and every complete-without-running action of a handler
+      targets a job created with Unknown access that no other handler settles), NO sequence of events
+      the scheduler admits reaches a panic state: neither the completed-twice / not-pending panics of
+      complete_one, nor the handlers' "has to be pending" panics. *)
+Theorem no_scheduler_panic_in_any_schedule : forall G, wf_graphb G = true -> calm_graph G = true ->
+  forall evs st, run G (init G) evs = Some st -> err st = false.
+Proof. intros G Hw Hc evs st. exact (never_panics_in_all_schedules G evs st (wf_graphb_sound G Hw) Hc). Qed.
+Print Assumptions no_scheduler_panic_in_any_schedule.
+
+(* 7. The property as a whole, with no side condition on the run: for a graph accepted by the four
+      decidable conditions (evaluated in Coq on the graph of every compiled source), in every schedule
+      no panic state is reached, the build never becomes unable to proceed, and every listed pair of
+      jobs that touch a common value is ordered. *)
+Theorem valid_source_never_fails : forall G rk order pairs,
+  calm_graph G = true -> live_graph G rk = true -> safe_graph G order pairs = true ->
+  forall evs st, run G (init G) evs = Some st ->
+  err st = false
+  /\ (pending st = [] \/ (exists i pj, lookup i (pending st) = Some pj /\ prun pj = true) \/ launchable st <> [])
+  /\ (forall w y, In (w, y) pairs -> started st y -> In w (g_wfin st)).
+Proof.
+  intros G rk order pairs Hc Hl Hs evs st Hr.
+  assert (Hw : wf_graphb G = true) by (unfold safe_graph in Hs; apply andb_true_iff in Hs as [Hw _]; exact Hw).
+  pose proof (no_scheduler_panic_in_any_schedule G Hw Hc evs st Hr) as He.
+  split; [exact He|]. split.
+  - exact (never_unable_to_proceed G rk Hw Hl evs st Hr He).
+  - exact (task_graph_safe_in_all_schedules G order pairs Hs evs st Hr He).
+Qed.
+Print Assumptions valid_source_never_fails.
+
 (* The hypotheses are satisfiable: a small graph with a gate (job 2 starts Unknown and is rewritten by
    the handler of job 0, which also adds job 3); job 2 reads what job 3 writes. *)
 Example tiny : graph :=
@@ -95,3 +125,16 @@ Example gate_forgotten_stuck :
   exists sched st, stuck_schedule gate_forgotten = Some sched /\ run gate_forgotten (init gate_forgotten) sched = Some st
                    /\ is_stuck st = true.   (* no panic, jobs pending, none running, none launchable *)
 Proof. eexists. eexists. split; [vm_compute; reflexivity|]. split; [vm_compute; reflexivity|]. vm_compute. reflexivity. Qed.
+
+(* no panic: the gated graph is calm; a graph whose hard rewrite targets a job that may already have run is not,
+   and a schedule reaching the panic is found *)
+Example tiny_calm : calm_graph tiny = true.
+Proof. vm_compute. reflexivity. Qed.
+Example late_rewrite : graph :=
+  mkGraph [mkJob 0 0 ANone []; mkJob 2 2 ANone []] [(0, [Rewrite false 2 (ASet [Var 0])])].
+Example late_rewrite_rejected : calm_graph late_rewrite = false.
+Proof. vm_compute. reflexivity. Qed.
+Example late_rewrite_panics :
+  exists sched st, panic_schedule late_rewrite = Some sched /\ run late_rewrite (init late_rewrite) sched = Some st
+                   /\ err st = true.
+Proof. eexists. eexists. split; [vm_compute; reflexivity|]. split; [vm_compute; reflexivity|]. reflexivity. Qed.
